@@ -457,6 +457,19 @@ def pointer_grammar(model: Dict[str, Any], backend: str) -> List[Tuple[str, str,
     add("current_trailing_crlf", "valid_current_padded", c + b"\r\n")
     add("invalid_utf8_prefix", "unusable", b"\xff\xfe" + c)
     add("invalid_utf8_truncated_multibyte", "unusable", c + b"\xe2\x82")
+    # bytes that are not UTF-8 at all, although dropping the offending bytes would leave a well-formed pointer
+    add("invalid_utf8_around_high_digits", "unusable", b"\xff\xfe99")
+    add("invalid_utf8_inside_high_digits", "unusable", b"9\xff9")
+    add("invalid_utf8_before_digits_0", "unusable", b"\x80\x810\n")
+    if V >= 1:
+        prev = committed[V - 1].encode()
+        add("invalid_utf8_before_stale_previous", "unusable", b"\xff" + prev)
+        add("invalid_utf8_inside_stale_previous", "unusable", prev[:4] + b"\xc3" + prev[4:])
+    # characters that str.isdigit() / int() treat as digits although they are not ASCII digits; huge numbers
+    add("unicode_superscript_digit", "unusable", "\u00b3".encode())
+    add("unicode_circled_digit", "unusable", "\u2462".encode())
+    add("unicode_arabic_indic_current_version", "unusable", "".join(chr(0x0660 + int(ch)) for ch in str(V)).encode())
+    add("digits_5000_long", "unusable", b"9" * 5000)
     add("nul_suffix", "unusable", c + b"\x00")
     add("nul_only", "unusable", b"\x00" * 16)
     add("nul_inside", "unusable", c[:2] + b"\x00" + c[2:])
